@@ -83,7 +83,7 @@ def resTok : Result → String
   | .byte b => "b" ++ toString b
   | .eof => "eof"
   | .eofByte => "-1"
-  | .term t => "t" ++ t.wire
+  | .term t => "t" ++ t.wire.replace " " "~"
   | .err e => errTok e
   | .bool b => if b then "yes" else "no"
   | .pos n => "p" ++ toString n
@@ -117,7 +117,7 @@ def parseRes (w : String) : Option Result :=
     | 'c' :: cs => (hexOfChars cs).map .char
     | 'b' :: cs => (natOfChars cs).map .byte
     | 'p' :: cs => (intOfChars cs).map .pos
-    | 't' :: cs => (Term.ofWire (String.ofList cs)).map .term
+    | 't' :: cs => (Term.ofWire ((String.ofList cs).replace "~" " ")).map .term
     | _ => none
 
 def opName : Op → String
